@@ -445,9 +445,9 @@ Idempotent == ~ranInQuiet
 ReachPruneThenOk == ~(lastOk /\ nkill > 0 /\ nedit > 1)
 ReachSkip == ~(Running("pk") /\ pc = "check" /\ inp[D(CurP)] = PackageInputs(CurP) /\ ninv > 1)
 
-\* counterexample printer for the weakened mechanisms (used with -continue): prints the history of
-\* every state violating P
-CexPrint == (IncrementalEqClean /\ Idempotent) \/ ~PrintT(<<"@@", ToJson(hist)>>)
+\* counterexample printer for the weakened mechanisms, used as a CONSTRAINT (always TRUE): prints the
+\* history of every reachable state that violates P, without TLC's error traces
+CexPrint == (IncrementalEqClean /\ Idempotent) \/ PrintT(<<"@@", ToJson(hist)>>)
 
 GenPrint == (GenDepth > 0 /\ TLCGet("level") = GenDepth) => PrintT(<<"@@", ToJson(hist)>>)
 =============================================================================
